@@ -110,3 +110,291 @@ func H_UpdateStep() {
 		}
 	}
 }
+
+// ---- sequential specification (the oracle) ----
+
+type sres struct {
+	id, owner string
+	version   uint64
+	phase     resource.Phase
+	fin       bool // finalizer "f" pending
+	s         string
+}
+
+type spec struct{ items []sres }
+
+const (
+	okClass = iota
+	notFound
+	conflict      // already exists / version conflict / pending finalizers
+	ownerConflict
+	phaseConflict
+)
+
+func (m *spec) find(id string) int {
+	for i := range m.items {
+		if m.items[i].id == id {
+			return i
+		}
+	}
+	return -1
+}
+
+func (m *spec) create(id, owner, s string) int {
+	if m.find(id) >= 0 {
+		return conflict
+	}
+	m.items = append(m.items, sres{id: id, owner: owner, version: 1, phase: resource.PhaseRunning, s: s})
+	return okClass
+}
+
+func (m *spec) destroy(id, owner string) int {
+	i := m.find(id)
+	switch {
+	case i < 0:
+		return notFound
+	case m.items[i].owner != owner:
+		return ownerConflict
+	case m.items[i].fin:
+		return conflict
+	}
+	m.items = append(m.items[:i:i], m.items[i+1:]...)
+	return okClass
+}
+
+// update: returns the set of violated preconditions (as flags) or applies the update
+func (m *spec) update(id, owner string, versionCurrent bool, expPhase *resource.Phase, newS string, newPhase resource.Phase, newFin bool) (exists, ownerOK, verOK, phaseOK bool) {
+	i := m.find(id)
+	if i < 0 {
+		return false, false, false, false
+	}
+	it := &m.items[i]
+	exists = true
+	ownerOK = it.owner == owner
+	verOK = versionCurrent
+	phaseOK = expPhase == nil || *expPhase == it.phase
+	if ownerOK && verOK && phaseOK {
+		it.version++
+		it.s, it.phase, it.fin = newS, newPhase, newFin
+	}
+	return
+}
+
+func classOf(err error) int {
+	switch {
+	case err == nil:
+		return okClass
+	case state.IsNotFoundError(err):
+		return notFound
+	case state.IsOwnerConflictError(err):
+		return ownerConflict
+	case state.IsPhaseConflictError(err):
+		return phaseConflict
+	case state.IsConflictError(err):
+		return conflict
+	}
+	return -1
+}
+
+func sameAsSpec(r resource.Resource, it sres) bool {
+	md := r.Metadata()
+	return verif.And(md.ID() == it.id, md.Owner() == it.owner, md.Version().Value() == it.version, md.Phase() == it.phase, md.Finalizers().Has("f") == it.fin, tres.SpecOf(r).S == it.s)
+}
+
+// compare every observable of the store with the model
+func checkState(ctx context.Context, st state.State, m *spec, ids []string) {
+	for _, id := range ids {
+		r, err := st.Get(ctx, resource.NewMetadata(tres.NS, tres.TypeA, id, resource.VersionUndefined))
+		i := m.find(id)
+		if i < 0 {
+			verif.Assert(err != nil && state.IsNotFoundError(err), "Get of an absent resource is not-found")
+		} else {
+			verif.Assert(err == nil, "Get of a present resource succeeds")
+			verif.Assert(sameAsSpec(r, m.items[i]), "Get returns the last committed value")
+		}
+	}
+	l, err := st.List(ctx, resource.NewMetadata(tres.NS, tres.TypeA, "", resource.VersionUndefined))
+	verif.Assert(err == nil && len(l.Items) == len(m.items), "List returns exactly the present resources")
+	for _, r := range l.Items {
+		i := m.find(r.Metadata().ID())
+		verif.Assert(i >= 0 && sameAsSpec(r, m.items[i]), "every listed resource is the last committed value")
+	}
+}
+
+var bothPhases = []resource.Phase{resource.PhaseRunning, resource.PhaseTearingDown}
+
+// H_History: every sequence of <=3 (quick) / <=4 (thorough) CRUD calls with
+// arbitrary arguments from the empty state agrees with the sequential specification.
+func H_History() {
+	ctx := context.Background()
+	var st state.State
+	if verif.Choose("wrapper", 2) == 0 {
+		st = newState()
+	} else {
+		st = state.WrapCore(inmem.NewState(tres.NS))
+	}
+	steps := 3
+	if verif.Tier() == "thorough" {
+		steps = 4
+	}
+	ids := []string{verif.Atom("idA"), verif.Atom("idB")}
+	verif.Assume(ids[0] != ids[1])
+	m := &spec{}
+	n := 1 + verif.Choose("nsteps", steps)
+	for k := 0; k < n; k++ {
+		id := verif.Atom("id")
+		verif.Assume(verif.Or(id == ids[0], id == ids[1]))
+		owner := verif.Atom("owner")
+		p := resource.NewMetadata(tres.NS, tres.TypeA, id, resource.VersionUndefined)
+		switch verif.Choose("op", 3) {
+		case 0:
+			verif.Case("Create")
+			r := tres.NewA(tres.NS, id, "c")
+			err := st.Create(ctx, r, state.WithCreateOwner(owner))
+			want := m.create(id, owner, "c")
+			verif.Assert(classOf(err) == want, "Create succeeds iff absent, else conflict")
+			if err == nil {
+				verif.Assert(r.Metadata().Version().Value() == 1 && r.Metadata().Owner() == owner, "Create stores version 1 under the requested owner and writes it back")
+				verif.Cover("created")
+			} else {
+				verif.Cover("create conflict")
+			}
+		case 1:
+			verif.Case("Destroy")
+			err := st.Destroy(ctx, p, state.WithDestroyOwner(owner))
+			want := m.destroy(id, owner)
+			verif.Assert(classOf(err) == want, "Destroy succeeds iff present, owner matches and no finalizer is pending")
+			if err == nil {
+				verif.Cover("destroyed")
+			}
+		case 2:
+			verif.Case("Update")
+			cur, gerr := st.Get(ctx, p)
+			var upd *tres.A
+			versionCurrent := false
+			if gerr == nil && verif.Choose("versionFresh", 2) == 1 {
+				upd = cur.DeepCopy().(*tres.A)
+				versionCurrent = true
+			} else {
+				upd = tres.NewA(tres.NS, id, "")
+				if gerr == nil {
+					upd.Metadata().SetVersion(cur.Metadata().Version().Next()) // stale/future version
+				}
+			}
+			upd.TypedSpec().S = "u"
+			newPhase := bothPhases[verif.Choose("newPhase", 2)]
+			upd.Metadata().SetPhase(newPhase)
+			newFin := verif.Choose("newFinalizer", 2) == 1
+			if newFin {
+				upd.Metadata().Finalizers().Add("f")
+			} else {
+				upd.Metadata().Finalizers().Remove("f")
+			}
+			opts := []state.UpdateOption{state.WithUpdateOwner(owner)}
+			var exp *resource.Phase
+			switch verif.Choose("expectedPhase", 3) {
+			case 0:
+				exp = &bothPhases[0]
+			case 1:
+				opts = append(opts, state.WithExpectedPhaseAny())
+			case 2:
+				opts = append(opts, state.WithExpectedPhase(resource.PhaseTearingDown))
+				exp = &bothPhases[1]
+			}
+			// an Update must keep the owner the caller read; a freshly built object names no owner
+			if !versionCurrent {
+				upd.Metadata().SetOwner(owner) //nolint:errcheck
+			}
+			err := st.Update(ctx, upd, opts...)
+			exists, ownerOK, verOK, phaseOK := m.update(id, owner, versionCurrent, exp, "u", newPhase, newFin)
+			should := exists && ownerOK && verOK && phaseOK
+			verif.Assert((err == nil) == should, "Update succeeds iff exists, owner, version and expected phase match")
+			if err == nil {
+				verif.Cover("updated")
+			} else {
+				c := classOf(err)
+				verif.Assert(c > 0, "Update failure is classifiable")
+				verif.Assert(verif.Or(verif.And(c == notFound, !exists), verif.And(c == ownerConflict, exists, !ownerOK), verif.And(c == conflict, exists, !verOK), verif.And(c == phaseConflict, exists, !phaseOK)), "the reported error class is one of the violated preconditions")
+			}
+		}
+		checkState(ctx, st, m, ids)
+	}
+}
+
+// H_Concurrent2: two threads, one CRUD call each, all schedules within the delay bound:
+// results and final state equal the sequential specification in one of the two orders.
+func H_Concurrent2() {
+	ctx := context.Background()
+	st := newState()
+	ids := []string{verif.Atom("idA"), verif.Atom("idB")}
+	verif.Assume(ids[0] != ids[1])
+	type call struct {
+		op        int
+		id, owner string
+		err       error
+		got       resource.Resource
+	}
+	mk := func() *call {
+		c := &call{op: verif.Choose("op", 3), id: verif.Atom("id"), owner: verif.Atom("owner")}
+		verif.Assume(verif.Or(c.id == ids[0], c.id == ids[1]))
+		return c
+	}
+	// optional pre-existing resource (forces the namespace/collection to exist already)
+	pre := verif.Choose("preexisting", 2) == 1
+	preOwner := ""
+	if pre {
+		preOwner = verif.Atom("preOwner")
+		verif.Assert(st.Create(ctx, tres.NewA(tres.NS, ids[0], "pre"), state.WithCreateOwner(preOwner)) == nil, "pre-state create")
+	}
+	run := func(c *call) {
+		p := resource.NewMetadata(tres.NS, tres.TypeA, c.id, resource.VersionUndefined)
+		switch c.op {
+		case 0:
+			c.err = st.Create(ctx, tres.NewA(tres.NS, c.id, "c"), state.WithCreateOwner(c.owner))
+		case 1:
+			c.err = st.Destroy(ctx, p, state.WithDestroyOwner(c.owner))
+		case 2:
+			c.got, c.err = st.Get(ctx, p)
+		}
+	}
+	a, b := mk(), mk()
+	go run(a)
+	go run(b)
+	verif.Quiesce()
+	// sequential replay in a given order; returns whether results match
+	replay := func(first, second *call) bool {
+		m := &spec{}
+		if pre {
+			m.create(ids[0], preOwner, "pre")
+		}
+		ok := true
+		for _, c := range []*call{first, second} {
+			switch c.op {
+			case 0:
+				ok = verif.And(ok, classOf(c.err) == m.create(c.id, c.owner, "c"))
+			case 1:
+				ok = verif.And(ok, classOf(c.err) == m.destroy(c.id, c.owner))
+			case 2:
+				i := m.find(c.id)
+				if i < 0 {
+					ok = verif.And(ok, classOf(c.err) == notFound)
+				} else {
+					ok = verif.And(ok, c.err == nil && sameAsSpec(c.got, m.items[i]))
+				}
+			}
+		}
+		// final state
+		for _, id := range ids {
+			r, err := st.Get(ctx, resource.NewMetadata(tres.NS, tres.TypeA, id, resource.VersionUndefined))
+			i := m.find(id)
+			if i < 0 {
+				ok = verif.And(ok, err != nil)
+			} else {
+				ok = verif.And(ok, err == nil && sameAsSpec(r, m.items[i]))
+			}
+		}
+		return ok
+	}
+	verif.Assert(verif.Or(replay(a, b), replay(b, a)), "two concurrent calls are equivalent to one of the two sequential orders (results and final state)")
+	verif.Cover("two concurrent calls")
+}
